@@ -205,6 +205,23 @@ def manufactured_deck(rnd, nslides=3):
         data = graft_foreign_parts(data, rnd)
     if rnd.random() < 0.5:
         data = respell_targets(data, rnd)
+    if rnd.random() < 0.5:
+        # a "voided" relationship (a plug-in removed an image by pointing its Target at NULL) that the slide's XML still uses
+        pk = opcx.Pkg.from_bytes(data)
+        out = dict(pk.members)
+        for name in sorted(pk.members):
+            if re.fullmatch(r"ppt/slides/_rels/slide\d+\.xml\.rels", name):
+                root = etree.fromstring(pk.members[name], opcx.PLAIN)
+                imgs = [r_ for r_ in root.iter("{%s}Relationship" % opcx.NS_PR) if r_.get("Type", "").endswith("/image")]
+                if imgs:
+                    rnd.choice(imgs).set("Target", "../media/NULL")
+                    out[name] = etree.tostring(root, xml_declaration=True, encoding="UTF-8", standalone=True)
+                    buf = io.BytesIO()
+                    with zipfile.ZipFile(buf, "w", zipfile.ZIP_DEFLATED) as zf:
+                        for name_, blob_ in out.items():
+                            zf.writestr(name_, blob_)
+                    data = buf.getvalue()
+                    break
     if rnd.random() < 0.3 and nslides > 1:
         # a slide "deleted" the way the widespread recipe does it: its p:sldId is gone, its relationship (and part) stays
         pk = opcx.Pkg.from_bytes(data)
@@ -521,6 +538,11 @@ class Run:
             if t is not None:
                 self.loaded_types[id(part)] = (part, str(part.partname), t)
         self.baseline_closure = Counter((r, _norm_detail(d)) for r, d in opcx.closure_problems(pin))
+        # relationships of the INPUT whose target part is absent ("voided"): python-pptx cannot but drop them, and an r:id the
+        # source's XML still carries was unresolvable before it was opened
+        self.voided_in_input = {(src, r_.id) for src in pin.part_names() for r_ in (pin.rels(src) or []) if not r_.external and not pin.has_part(r_.target)}
+        # (... or that had no relationship at all in the input, e.g. the same deck saved by python-pptx and opened again)
+        self.voided_in_input |= {(src, val) for src in pin.part_names() for _a, val in pin.r_refs(src) if val and val not in {r_.id for r_ in (pin.rels(src) or [])}}
         for part in xml_parts(self.prs):
             errs, why = xsdkit.validate_part(etree.tostring(part._element))
             self.val_baseline[part] = errs if errs is not None else None
@@ -657,6 +679,16 @@ class Run:
                             self.report("C06", "rId-reassigned-while-in-use", "op %s: %s %s now designates another target while <%s> still refers to it" % (opname, part.partname, rid, xsdkit.pfx_tag(users[0][0].tag)))
                         else:
                             self.acc.count("rId_reused_after_drop_allowed")
+                    elif rid not in old:
+                        # a NEW id: no element that was there before the op may already have carried it (a reference whose
+                        # relationship was voided in the input is still 'in use' by the XML)
+                        users = [
+                            (el, k)
+                            for el, k, v in self.ref_users.get(part, ())
+                            if v == rid and el.get(k) == rid and el_root is not None and _top(el) is el_root
+                        ]
+                        if users:
+                            self.report("C06", "rId-reassigned-while-in-use:was-unresolved", "op %s: %s hands out %s, which <%s> already referred to (without a relationship) before the op" % (opname, part.partname, rid, xsdkit.pfx_tag(users[0][0].tag)))
             self.rel_maps[part] = now
             if el_root is not None and len(rels):
                 self.ref_users[part] = [
@@ -733,7 +765,13 @@ class Run:
         if "C02" in self.deciders:
             probs = Counter((r, _norm_detail(d)) for r, d in opcx.closure_problems(pout, expect_types))
             fresh = probs - self.baseline_closure
+            now_named = {str(part.partname): rec[1] for part in prs.part.package.iter_parts() for rec in [getattr(self, "loaded_types", {}).get(id(part))] if rec is not None and rec[0] is part}
             for (rule, det), n in fresh.items():
+                if rule == "dangling-r-reference" and getattr(self, "voided_in_input", None):
+                    src_, ref_ = det.split(" r:", 1)
+                    if (now_named.get(src_, src_), ref_.split("=", 1)[1]) in self.voided_in_input:
+                        self.acc.count("references_to_relationships_voided_in_the_input")
+                        continue
                 self.report("C02", "closure:%s" % rule, "save #%d: %s %s" % (self.saves, rule, det))
             self.acc.count("saves_checked_for_closure")
             for part in prs.part.package.iter_parts():
